@@ -195,15 +195,34 @@ class Cell(NullCell):
         # Hash_repr(c) := sha256(CellRepr(c))
         return hashlib.sha256(self.get_representation()).digest()
 
-    def order(self, result: dict = {}) -> dict:
+    def order(self, result: dict = None) -> dict:
         """
         :return: dict {<Cell>: <index>}
         """
-        if self in result:
-            result.pop(self)
-        result[self] = None
-        for ref in self.refs:
-            ref.order(result)
+        if result is None:
+            result = {}
+        # Iterative depth-first search, references taken right to left. The reverse post-order puts every
+        # cell before the cells it references; it is the order in which the naive traversal (visit a cell,
+        # move it to the end, walk its references again) sees each cell for the last time, without walking
+        # a shared sub-DAG once per path and without recursion.
+        post = []
+        done = set()
+        stack = [(self, False)]
+        while stack:
+            cell, expanded = stack.pop()
+            if expanded:
+                post.append(cell)
+                continue
+            if cell in done:
+                continue
+            done.add(cell)
+            stack.append((cell, True))
+            for ref in cell.refs:
+                if ref not in done:
+                    stack.append((ref, False))
+        for cell in reversed(post):
+            result.pop(cell, None)
+            result[cell] = None
         return result
 
     def serialize(self, indexes: dict, byte_len: int) -> bytes:
